@@ -108,6 +108,7 @@ def prog_constants(p, j=1, max_hist=4, max_cmds=3, unlocked_bug=False, selfdep_p
     d['RmFiles'] = sset([s(x) for x in p.get('rm', [])])
     d['DoEdits'] = sset([s(x) for x in p.get('doedits', [])])
     d['TmpFiles'] = sset([s(x) for x in p.get('tmpfiles', [])])
+    d['Links'] = fn([(s(k), seq([s(x) for x in v])) for k, v in p.get('links', {}).items()])
     d['NoDir'] = sset([s(x) for x in p.get('nodir', [])])
     d['MaxHist'] = str(max_hist)
     d['MaxCmds'] = str(max_cmds)
@@ -116,6 +117,7 @@ def prog_constants(p, j=1, max_hist=4, max_cmds=3, unlocked_bug=False, selfdep_p
     d['MaxCrash'] = str(p.get('max_crash', max_crash))
     d['CrashWindow'] = 'TRUE' if p.get('crash_window', crash_window) else 'FALSE'
     d['StampWindow'] = 'TRUE' if p.get('stamp_window', False) else 'FALSE'
+    d['StaleTmpDirBug'] = 'TRUE' if p.get('stale_tmpdir_bug', False) else 'FALSE'
     # SQLite's default BINARY collation orders by bytes
     d['NameSeq'] = seq([s(x) for x in sorted(list(plain) + list(rules), key=lambda x: x.encode())])
     return d
@@ -336,6 +338,12 @@ def output_family():
         outputs('outI', [('file', 0), ('directold+file', 0), ('stdout', 0)], user_t=False),
         dict(outputs('outJ', [('stdout', 0), ('nothing', 0), ('file', 0)], user_t=False), tmpfiles=['t'], doedits=['t.do'], user=[], rm=[]),
         dict(outputs('outK', [('file', 0), ('stdout', 4), ('stdout', 0)], user_t=False), tmpfiles=['t'], user=['s'], rm=[]),
+        # directories: $3 made a directory holding the output (installed by rename when the target is absent; rename
+        # onto an existing directory or of a directory onto a file fails: 209, nothing installed, $3 removed), and the
+        # idiom for directory targets (rm -rf $1; mkdir $1)
+        outputs('outN', [('dirout', 0), ('file', 0), ('stdout', 0)], user_t=False),
+        outputs('outO', [('file', 0), ('dirout', 0), ('dirdirect', 0)], user_t=False),
+        outputs('outP', [('dirdirect', 0), ('dirdirect+stdout', 0), ('dirout', 3)], user_t=False),
     ]]
 
 
@@ -501,6 +509,37 @@ def subdirs():
     }
 
 
+def symlink_prog():
+    """a source that is a symbolic link: editing what it points to, and pointing it elsewhere, must rebuild its
+    consumers (the stamp of a link is the link's own stamp plus the stamp of what it points to)"""
+    return {
+        'name': 'symlink',
+        'plain': ['s2', 's3', 'ls', 't', 'top'],
+        'links': {'ls': ['s2', 's3']},
+        'rules': {'t.do': [{'t': [ifchange('ls'), out('stdout', 'ls')]}],
+                  'top.do': [{'top': [ifchange('t'), out('file', 't')]}]},
+        'init': ['s2', 's3', 'ls', 't.do', 'top.do'],
+        'cmds': [('ifchange', ['top'], False), ('ifchange', ['t'], False)],
+        'user': ['s2', 's3'], 'rm': ['t'], 'doedits': [],
+        'bounds': (5, 3),
+    }
+
+
+def symlink_stamped():
+    """a checksummed target that reads through a symbolic link, under a plain dependent"""
+    return {
+        'name': 'symlink_stamped',
+        'plain': ['s2', 's3', 'ls', 'mid', 'top'],
+        'links': {'ls': ['s2', 's3']},
+        'rules': {'mid.do': [{'mid': [ifchange('ls'), out('stdout', tag=9), stamp()]}],
+                  'top.do': [{'top': [ifchange('mid', 'ls'), out('stdout', 'mid', 'ls')]}]},
+        'init': ['s2', 's3', 'ls', 'mid.do', 'top.do'],
+        'cmds': [('ifchange', ['top'], False)],
+        'user': ['s2'], 'rm': [], 'doedits': [],
+        'bounds': (5, 3),
+    }
+
+
 # parallel builds (redo -jN) ------------------------------------------------------------------
 def par_diamond(j=2):
     return {
@@ -653,7 +692,9 @@ def cycle_family():
 # kills (C10) ---------------------------------------------------------------------------------
 def crash_family(window=False, stamp_window=False):
     out_ = []
-    base = [chain(), stamped(1, 'plain'), outputs('outfile', [('file', 0), ('stdout', 0)], user_t=False), ifcreate_prog()]
+    base = [chain(), stamped(1, 'plain'), outputs('outfile', [('file', 0), ('stdout', 0)], user_t=False), ifcreate_prog(),
+            dict(outputs('outdir', [('dirout', 0)], user_t=False), user=[]),
+            outputs('outdird', [('dirdirect', 0)], user_t=False)]
     for p in base:
         p = dict(p)
         p['name'] = 'crash_' + p['name'] + ('_w' if window else '') + ('_s' if stamp_window else '')
@@ -664,12 +705,12 @@ def crash_family(window=False, stamp_window=False):
         p['doedits'] = []
         p['max_crash'] = 1
         p['crash_window'] = window
-        p['bounds'] = (4, 3)
+        p['bounds'] = (4, 3) if p['user'] else (3, 3)      # (without user steps a history has at most MaxCmds entries)
         out_.append(complete(p))
     return out_
 
 
-FAMILY_DEEP = [nodir_prog, always2, fail_diamond, override2, stamp_toggle, stamped_deep, ifcreate_deep, do_recreate, subdirs, fan_shared, fail_memo]
+FAMILY_DEEP = [symlink_prog, symlink_stamped, nodir_prog, always2, fail_diamond, override2, stamp_toggle, stamped_deep, ifcreate_deep, do_recreate, subdirs, fan_shared, fail_memo]
 
 
 def deep_programs():
